@@ -212,14 +212,34 @@ theorem maven_exact (projName : String) (pre : List (String × List X)) (hpre : 
 /-- entries in other notations are skipped without disturbing the rest -/
 theorem gradle_other_skipped (a b : List GStmt) (conf what : String) :
     gradleDeps (a ++ { conf := conf, nota := .other what } :: b) = gradleDeps a ++ gradleDeps b := by
-  simp [gradleDeps, List.filterMap_append]
+  simp [gradleDeps, stmtDeps, List.flatMap_append]
 
 /-- a string notation `g:a[:v]` — single or double quoted, parenthesised or not, with or without a
     configuration closure — is extracted exactly once, in declaration order, with its configuration -/
 theorem gradle_string_extracted (a b : List GStmt) (conf text : String) (q : Char) (paren closure : Bool) (d : Dep)
     (h : convert conf text = some d) :
     gradleDeps (a ++ { conf := conf, nota := .str q paren closure text } :: b) = gradleDeps a ++ d :: gradleDeps b := by
-  simp [gradleDeps, List.filterMap_append, h]
+  simp [gradleDeps, stmtDeps, List.flatMap_append, h]
+
+/-- a statement with several string notations (`implementation 'a:b', 'c:d'`) declares each of them, in order -/
+theorem gradle_strings_all_extracted (a b : List GStmt) (conf : String) (paren : Bool) (texts : List String) (ds : List Dep)
+    (h : texts.map (convert conf) = ds.map some) :
+    gradleDeps (a ++ { conf := conf, nota := .strs paren texts } :: b) = gradleDeps a ++ ds ++ gradleDeps b := by
+  have hf : ∀ (ts : List String) (es : List Dep), ts.map (convert conf) = es.map some → ts.filterMap (convert conf) = es := by
+    intro ts
+    induction ts with
+    | nil => intro es he; cases es with
+      | nil => rfl
+      | cons e es => simp at he
+    | cons t ts ih =>
+      intro es he
+      cases es with
+      | nil => simp at he
+      | cons e es =>
+        simp only [List.map_cons, List.cons.injEq] at he
+        simp only [List.filterMap_cons, he.1]
+        rw [ih es he.2]
+  simp [gradleDeps, stmtDeps, List.flatMap_append, hf texts ds h]
 
 /-- the unused report is exactly the sub-list of declared dependencies whose group id occurs in no import -/
 theorem unused_exact (declared : List Dep) (imports : List String) (d : Dep) :
